@@ -25,8 +25,7 @@ use qbase::{
         Frame, MaxStreamDataFrame, ResetStreamFrame, StopSendingFrame, StreamCtlFrame, StreamFrame,
     },
     packet::{Package, io::RecordFrame},
-    role::Role,
-    sid::{Dir, StreamId},
+    sid::StreamId,
     util::ContinuousData,
     varint::VarInt,
 };
@@ -162,6 +161,20 @@ struct World {
     eps: [Endpoint; 2],
     halves: Vec<Half>,
     conn_err: bool,
+}
+
+/// A panic inside the real code (caught and reported) leaves poisoned mutexes behind: `Writer::drop` /
+/// `Reader::drop` would panic again on them, so the objects of such a case are leaked instead of dropped.
+fn one_case(rng: &mut Rng, sink: &mut Sink, lossless: bool) {
+    let mut world: Option<World> = None;
+    let r = catch(|| case_body(rng, sink, lossless, &mut world));
+    let panicked = sink.monitor_failures.iter().any(|m| m["key"].as_str().is_some_and(|k| k.starts_with("panic")));
+    if let Err(m) = &r {
+        sink.monitor_fail("panic:uncaught", &format!("the real code panicked outside a guarded call: {}", m));
+    }
+    if r.is_err() || panicked {
+        std::mem::forget(world);
+    }
 }
 
 fn werr(e: &StreamError) -> &'static str {
@@ -593,14 +606,15 @@ fn gen_cap(rng: &mut Rng) -> usize {
     (match rng.below(10) { 0 => rng.range(0, 24), 1 | 2 => rng.range(25, 40), 3 | 4 => rng.range(41, 200), 5 => 1200, 6 => 65_000, _ => rng.range(200, 1500) }) as usize
 }
 
-fn one_case(rng: &mut Rng, sink: &mut Sink, lossless: bool) {
+fn case_body(rng: &mut Rng, sink: &mut Sink, lossless: bool, world: &mut Option<World>) {
     let ca = [pick_win(rng), pick_win(rng), pick_win(rng)];
     let sa = [pick_win(rng), pick_win(rng), pick_win(rng)];
     let a = endpoint(Wiring::Client, P6 { l: ca, r: sa }, VMAX, VMAX, 100);
     let b = endpoint(Wiring::Server, P6 { l: sa, r: ca }, VMAX, VMAX, 100);
     a.rec.take();
     b.rec.take();
-    let mut wd = World { eps: [a, b], halves: vec![], conn_err: false };
+    *world = Some(World { eps: [a, b], halves: vec![], conn_err: false });
+    let wd = world.as_mut().unwrap();
     let nstreams = rng.range(1, 3);
     for _ in 0..nstreams {
         let ep = rng.below(2) as usize;
@@ -616,18 +630,18 @@ fn one_case(rng: &mut Rng, sink: &mut Sink, lossless: bool) {
         let c = rng.below(100);
         if c < 16 {
             let d = gen_data(rng);
-            op_write(&mut wd, i, d, sink);
+            op_write(wd, i, d, sink);
         } else if c < 20 {
-            op_shutdown(&mut wd, i, sink);
+            op_shutdown(wd, i, sink);
         } else if c < 24 {
-            op_flush(&mut wd, i, sink);
+            op_flush(wd, i, sink);
         } else if c < 26 {
-            op_ready(&mut wd, i, sink);
+            op_ready(wd, i, sink);
         } else if c < 48 {
             if wd.conn_err && rng.chance(3, 4) { continue; }
             let ep = rng.below(2) as usize;
             let cap = gen_cap(rng);
-            op_load(&mut wd, ep, cap, sink);
+            op_load(wd, ep, cap, sink);
         } else if c < 64 {
             let h = &wd.halves[i];
             if h.emitted.is_empty() { continue; }
@@ -637,60 +651,60 @@ fn one_case(rng: &mut Rng, sink: &mut Sink, lossless: bool) {
                 else if !fresh.is_empty() && rng.chance(2, 3) { *rng.pick(&fresh) } else { rng.below(h.emitted.len() as u64) as usize };
             if h.delivered[fi] { saw_dup = true; }
             if fresh.first().is_some_and(|f| *f != fi) { saw_reorder = true; }
-            op_deliver(&mut wd, i, fi, sink);
+            op_deliver(wd, i, fi, sink);
         } else if c < 74 {
             let h = &wd.halves[i];
             if h.emitted.is_empty() { continue; }
             let fi = if lossless { match (0..h.emitted.len()).find(|k| h.delivered[*k] && !h.acked[*k]) { Some(k) => k, None => continue } }
                 else { rng.below(h.emitted.len() as u64) as usize };
-            op_ack_or_lose(&mut wd, i, fi, false, sink);
+            op_ack_or_lose(wd, i, fi, false, sink);
         } else if c < 82 {
             if lossless { continue; }
             let h = &wd.halves[i];
             if h.emitted.is_empty() { continue; }
             let fi = rng.below(h.emitted.len() as u64) as usize;
             saw_loss = true;
-            op_ack_or_lose(&mut wd, i, fi, true, sink);
+            op_ack_or_lose(wd, i, fi, true, sink);
         } else if c < 93 {
             let cap = match rng.below(5) { 0 => rng.range(0, 3), 1 => 100_000, _ => rng.range(1, 400) } as usize;
-            op_read(&mut wd, i, cap, sink);
+            op_read(wd, i, cap, sink);
         } else if c < 95 {
             let h = &wd.halves[i];
             if h.msds.is_empty() { continue; }
             let mi = rng.below(h.msds.len() as u64) as usize;
-            op_rxmsd(&mut wd, i, mi, sink);
+            op_rxmsd(wd, i, mi, sink);
         } else if lossless {
             continue;
         } else if c < 96 {
             saw_abort = true;
-            op_cancel(&mut wd, i, sink);
+            op_cancel(wd, i, sink);
         } else if c < 97 {
             saw_abort = true;
-            op_stop(&mut wd, i, sink);
+            op_stop(wd, i, sink);
         } else if c < 98 {
             if wd.halves[i].stops == 0 || wd.conn_err { continue; }
-            op_rxstop(&mut wd, i, sink);
+            op_rxstop(wd, i, sink);
         } else if c < 99 {
             let h = &wd.halves[i];
             if h.resets.is_empty() { continue; }
-            if rng.chance(1, 3) { op_ackreset(&mut wd, i, sink); } else { let ri = rng.below(h.resets.len() as u64) as usize; op_rxreset(&mut wd, i, ri, sink); }
+            if rng.chance(1, 3) { op_ackreset(wd, i, sink); } else { let ri = rng.below(h.resets.len() as u64) as usize; op_rxreset(wd, i, ri, sink); }
         } else if rng.chance(1, 3) {
             saw_abort = true;
             let ep = rng.below(2) as usize;
-            if !wd.conn_err { op_connerr(&mut wd, ep, sink); }
+            if !wd.conn_err { op_connerr(wd, ep, sink); }
         }
     }
     if saw_abort { sink.branch("case:abort"); }
     // ---- cooperative suffix: the network eventually delivers what is retransmitted -----------------------
     if rng.chance(1, 10) { sink.branch("case:no-suffix"); return; }
     for i in 0..wd.halves.len() {
-        if !wd.halves[i].shutdown_called && !wd.halves[i].aborted { op_shutdown(&mut wd, i, sink); }
+        if !wd.halves[i].shutdown_called && !wd.halves[i].aborted { op_shutdown(wd, i, sink); }
     }
     // frames that were never acknowledged are declared lost first (so that they are retransmitted)
     for i in 0..wd.halves.len() {
         if wd.halves[i].aborted { continue; }
         for fi in 0..wd.halves[i].emitted.len() {
-            if !wd.halves[i].acked[fi] && !wd.halves[i].delivered[fi] { saw_loss = true; op_ack_or_lose(&mut wd, i, fi, true, sink); }
+            if !wd.halves[i].acked[fi] && !wd.halves[i].delivered[fi] { saw_loss = true; op_ack_or_lose(wd, i, fi, true, sink); }
         }
     }
     let mut rounds = 0;
@@ -699,18 +713,18 @@ fn one_case(rng: &mut Rng, sink: &mut Sink, lossless: bool) {
         let mut progress = false;
         for ep in 0..2 {
             let mut n = 0;
-            while n < 4000 && op_load(&mut wd, ep, 1200, sink) { n += 1; progress = true; }
+            while n < 4000 && op_load(wd, ep, 1200, sink) { n += 1; progress = true; }
         }
         for i in 0..wd.halves.len() {
             if wd.halves[i].aborted { continue; }
             let mut order: Vec<usize> = (0..wd.halves[i].emitted.len()).filter(|k| !wd.halves[i].delivered[*k]).collect();
             // random delivery order
             for k in (1..order.len()).rev() { let j = rng.below(k as u64 + 1) as usize; order.swap(k, j); }
-            for fi in order { op_deliver(&mut wd, i, fi, sink); progress = true; }
+            for fi in order { op_deliver(wd, i, fi, sink); progress = true; }
             let un: Vec<usize> = (0..wd.halves[i].emitted.len()).filter(|k| !wd.halves[i].acked[*k]).collect();
-            for fi in un { op_ack_or_lose(&mut wd, i, fi, false, sink); progress = true; }
+            for fi in un { op_ack_or_lose(wd, i, fi, false, sink); progress = true; }
             loop {
-                let (n, eof, pending) = op_read(&mut wd, i, 1000, sink);
+                let (n, eof, pending) = op_read(wd, i, 1000, sink);
                 if n > 0 { progress = true; }
                 if eof || pending || n == 0 { break; }
             }
@@ -718,7 +732,7 @@ fn one_case(rng: &mut Rng, sink: &mut Sink, lossless: bool) {
             if !h.msds.is_empty() {
                 let mi = h.msds.len() - 1;
                 let before = writer_window(&h.w);
-                op_rxmsd(&mut wd, i, mi, sink);
+                op_rxmsd(wd, i, mi, sink);
                 if writer_window(&wd.halves[i].w) != before { progress = true; }
             }
         }
@@ -727,8 +741,8 @@ fn one_case(rng: &mut Rng, sink: &mut Sink, lossless: bool) {
     // MONITOR (liveness on the real objects)
     for i in 0..wd.halves.len() {
         if wd.halves[i].aborted { continue; }
-        let sdone = op_shutdown(&mut wd, i, sink);
-        let fdone = op_flush(&mut wd, i, sink);
+        let sdone = op_shutdown(wd, i, sink);
+        let fdone = op_flush(wd, i, sink);
         let h = &wd.halves[i];
         if h.rbytes.len() != h.wbytes.len() {
             sink.monitor_fail("not_all_bytes_readable", &format!("{}: everything was retransmitted, delivered and acknowledged, but only {} of {} bytes were readable", h.key, h.rbytes.len(), h.wbytes.len()));
